@@ -310,31 +310,6 @@ Theorem C18_continuous_continue_exp : forall c ops o s' e rest,
 Proof. exact exp_continue. Qed.
 Print Assumptions C18_continuous_continue_exp.
 
-(* ================= T1: the source constructs the models transcribe ================= *)
-
-(* re-extracted from the working tree on every run (harness/tables/continuous.py): the comparison operators of
-   legacy out_of_bounds (x < min or x >= max, per axis) and of experimental in_bounds (>= lo & <= hi), the growth
-   rule of the position array (fraction 1/5, at least 1 row, taken when shape[0] <= index), the kth argument of
-   argpartition (k - 1), the three radius comparisons (dists <= radius**2, dists[x] > 0, distances <= radius), the
-   shape of the two torus corrections (min + (x - min) % size with each axis' own min and size; in bounds -> unchanged,
-   bounded -> raise, torus -> wrap) and of _remove_agent (re-index active_agents[index:] by -1, copy rows
-   [index+1 : n] onto [index : n-1], then n -= 1) are the ones oob_half, in_closed, growth / add_agent, the guard of
-   EKNearest, neighbors_of, in_radius, wrap / torus_adj and remove_agent encode *)
-Theorem C10_source_shapes :
-  gen_cont_legacy_oob = [KLt; KGe; KLt; KGe] /\ gen_cont_exp_in_bounds = [KGe; KLe] /\
-  gen_cont_exp_growth = ((1, 5, 1), KLe) /\ gen_cont_exp_kth_offset = -1 /\
-  gen_cont_radius_ops = [KLe; KGt; KLe] /\
-  gen_cont_wrap = ([(0, 1, 1); (1, 1, 1)], 1) /\ gen_cont_exp_remove = ((0, -1, 1, 0), 0).
-Proof. exact (conj eq_refl (conj eq_refl (conj eq_refl (conj eq_refl (conj eq_refl (conj eq_refl eq_refl)))))). Qed.
-Print Assumptions C10_source_shapes.
-
-(* the modelled growth is the extracted rule: round(n/5) = (2n+5)/10 rows, but at least the extracted minimum,
-   hence at least one row - what the invariant n <= capacity needs *)
-Theorem C10_growth_positive : forall n,
-  growth n = Nat.max ((2 * n + 5) / 10) (Z.to_nat (snd (fst gen_cont_exp_growth))) /\ (1 <= growth n)%nat.
-Proof. exact growth_spec. Qed.
-Print Assumptions C10_growth_positive.
-
 (* ================= T1 at code level: the source functions, translated ================= *)
 
 (* harness/tables/continuous_code.py TRANSLATES (harness/pyexpr.py, per-axis reading of the NumPy expressions) on every
@@ -352,6 +327,12 @@ Print Assumptions C10_source_skeletons.
 Theorem C10_source_code_is_model : source_code_is_model_statement.
 Proof. exact source_code_is_model. Qed.
 Print Assumptions C10_source_code_is_model.
+
+(* the translated growth rule adds at least one row whenever it is taken - what the invariant n <= capacity needs
+   (false for the unrepaired  int(round(0.2 * n))  at n = 1, 2) *)
+Theorem C10_growth_positive_of_source : forall n, 1 <= gen_cs_growth (Z.of_nat n).
+Proof. exact growth_positive_of_source. Qed.
+Print Assumptions C10_growth_positive_of_source.
 
 (* _remove_agent: the model's compaction is the slice copy with the translated bounds (equal lengths), n decremented *)
 Theorem C10_source_compaction : forall s a index s',
